@@ -195,7 +195,7 @@ def run(ctx):
             ctx.notes.append(f"{config}: discrepancies attributed to other properties (not reported here): {others}")
 
     concurrent = None
-    if ctx.prop in ("C08", "C02"):
+    if ctx.prop in ("C08", "C02", "C03", "C04"):
         # the concurrent facet: several threads panicking / matching at once (engine C workloads)
         from . import engine_c
         b = engine_c.C10_BUDGET[ctx.tier]
